@@ -4,7 +4,7 @@
    theorems (C10_merge_covers_inputs, UnionsOk of C19's group theorem), from ShardOk of the inputs. *)
 From Coq Require Import ZArith NArith Bool List Lia.
 Import ListNotations.
-From XetModel Require Import Base.Codec Gen.ShardLayout Model.Merkle Model.Shard Proofs.CodecProofs Proofs.ShardProofs Proofs.SetOpProofs Proofs.ShardWholeProofs Proofs.ShardDedupWholeProofs.
+From XetModel Require Import Base.Codec Gen.ShardLayout Model.Merkle Model.Shard Proofs.CodecProofs Proofs.ShardProofs Proofs.SetOpProofs Proofs.ShardWholeProofs Proofs.ShardDedupWholeProofs Proofs.MergeAllProofs.
 Open Scope N_scope.
 
 Lemma merged_flags (hv he : bool) :
@@ -62,4 +62,23 @@ Proof.
   unfold ShardOk. split; [apply union_files_wf; assumption|]. split; [apply union_cas_wf; assumption|].
   split; [reflexivity|]. split; [unfold is_u64; lia|]. split; [unfold is_u64, u64max; lia|].
   split; [exact S1|]. split; [exact S2|]. split; [exact S3|]. split; [exact L|]. apply union_files_hash_bytes; assumption.
+Qed.
+
+(* a whole consolidation group: the premise UnionsOk of the group theorems (every intermediate union is a well-formed shard)
+   follows from the inputs being well-formed, no step meeting a K2 pair, and the sizes of the intermediate results *)
+Definition fits (s : sshard) : Prop :=
+  is_u64 (sum_ndisk (ss_cass s)) /\ is_u64 (sum_materialized (ss_files s)) /\ is_u64 (sum_nbytes (ss_cass s)) /\ N.of_nat (length (ss_bytes s)) < 4294967296.
+Fixpoint StepsFit (acc : sshard) (g : list sshard) : Prop :=
+  match g with
+  | [] => True
+  | s :: r => SameSegs (ss_files acc) (ss_files s) /\ fits (ss_union acc s) /\ StepsFit (ss_union acc s) r
+  end.
+Theorem unions_ok_from_steps : forall g acc, ss_ok acc -> Forall ss_ok g -> StepsFit acc g -> UnionsOk acc g /\ ss_ok (ss_unions acc g).
+Proof.
+  induction g as [|s r IH]; intros acc Ha Hg Hf; cbn [UnionsOk ss_unions]; [split; [exact I | exact Ha]|].
+  inversion Hg as [|? ? Hs Hr]; subst. destruct Hf as (S & (F1 & F2 & F3 & F4) & Hrest).
+  assert (U : ss_ok (ss_union acc s)).
+  { unfold ss_ok, ss_union. cbn [ss_files ss_cass ss_ctbl ss_key ss_created ss_expiry].
+    apply (union_shard_ok _ _ _ _ _ _ _ _ _ _ _ _ Ha Hs S); assumption. }
+  destruct (IH (ss_union acc s) U Hr Hrest) as [A B]. split; [split; assumption | exact B].
 Qed.
